@@ -207,4 +207,13 @@ def run_episode(env, td_in, chooser_names, gen, max_steps: int, scripted=None, s
             ep.reward = env.get_reward(td.clone(), ep.actions_tensor().clone())
         except Exception as e:
             ep.reward_exc = e
+        if ep.reward_exc is None:
+            # asking again for the reward of the SAME state object (best-of-k selection ranks candidates with get_reward and the
+            # policy then asks once more; users re-evaluate a returned state): the answer must not change
+            try:
+                same = td.clone()
+                env.get_reward(same, ep.actions_tensor().clone())
+                ep.reward_repeat = env.get_reward(same, ep.actions_tensor().clone())
+            except Exception:
+                ep.reward_repeat = None
     return ep
